@@ -514,7 +514,7 @@ func (g *g) emitParse(emit func(hxlib.Case), kind, text string) {
 	valid := utf8.ValidString(text)
 	oracle := "~"
 	if valid {
-		res := guarded(func() string { oracle = oracleFor(tokensOf(text)); return "" })
+		res := guarded(func() string { oracle = textOracle(text, nil); return "" })
 		if res != "" {
 			valid = false // tokenizer panics: implementation-only case, the monitor reports it
 			oracle = "~"
@@ -601,8 +601,8 @@ func (g *g) raw() string {
 		}
 	}
 	s := strings.Join(parts, g.pick([]string{" ", " ", "", "  "}))
-	if g.rng.Intn(2) == 0 {
-		s = "query " + g.pick([]string{"a:", "db:k", ":", "x"}) + " " + g.pick([]string{"where ", "", "where (", "orderby "}) + s
+	if g.rng.Intn(5) != 0 {
+		s = "query " + g.pick([]string{"a:", "db:k", ":", "x"}) + " " + g.pick([]string{"where ", "where ", "where ", "", "where (", "where not ", "orderby "}) + s
 	}
 	return s
 }
@@ -620,7 +620,7 @@ func (g *g) rawBytes() string {
 			b[i] = "query where andornot=<>abc:"[g.rng.Intn(27)]
 		}
 	}
-	if g.rng.Intn(2) == 0 {
+	if g.rng.Intn(4) != 0 {
 		return "query a: where " + string(b)
 	}
 	return string(b)
